@@ -64,6 +64,13 @@ func call(overrideFN *string, namespace types.EnvType, fIn types.MalType, args .
 			minArgs, maxArgs = 0, unlimitedArgments
 		}
 	}
+	if contextRequired && len(args) > 0 {
+		// declared bounds count lisp arguments; _args_ctx discounts the context parameter
+		minArgs++
+		if maxArgs != unlimitedArgments {
+			maxArgs++
+		}
+	}
 	if minArgs > maxArgs {
 		panic(fmt.Errorf("%s: maximum arguments (%d) is lower than minimum arguments (%d)", functionFullName, maxArgs, minArgs))
 	}
